@@ -69,6 +69,9 @@ type Leaser struct {
 	URL  string
 }
 
+// NewLeaser returns the leaser a node [name] advertising [url] would get on this cluster's lease service.
+func (c *Cluster) NewLeaser(name, url string) *Leaser { return &Leaser{svc: c.Svc, Host: name, URL: url} }
+
 func (l *Leaser) Close() error         { return nil }
 func (l *Leaser) Type() string         { return "sim" }
 func (l *Leaser) Hostname() string     { return l.Host }
